@@ -2001,31 +2001,36 @@ impl ConfigState {
             }
         }
 
-        for ((cluster_id, backend_id), res) in diff_map(
-            self.backends.iter().flat_map(|(cluster_id, v)| {
-                v.iter()
-                    .map(move |backend| ((cluster_id, &backend.backend_id), backend))
-            }),
-            other.backends.iter().flat_map(|(cluster_id, v)| {
-                v.iter()
-                    .map(move |backend| ((cluster_id, &backend.backend_id), backend))
-            }),
-        ) {
+        // a backend is identified by (cluster, backend id, address): the same
+        // id may be registered at several addresses
+        let keyed_backends = |state: &'_ ConfigState| {
+            state
+                .backends
+                .iter()
+                .flat_map(|(cluster_id, v)| {
+                    v.iter().map(move |backend| {
+                        (
+                            (
+                                cluster_id.clone(),
+                                backend.backend_id.clone(),
+                                backend.address,
+                            ),
+                            backend.clone(),
+                        )
+                    })
+                })
+                .collect::<BTreeMap<(ClusterId, String, SocketAddr), Backend>>()
+        };
+        let my_backends = keyed_backends(self);
+        let their_backends = keyed_backends(other);
+        for (key, res) in diff_map(my_backends.iter(), their_backends.iter()) {
             match res {
                 DiffResult::Added => {
-                    let backend = other
-                        .backends
-                        .get(cluster_id)
-                        .and_then(|v| v.iter().find(|b| &b.backend_id == backend_id))
-                        .unwrap();
+                    let backend = &their_backends[key];
                     v.push(RequestType::AddBackend(backend.clone().to_add_backend()).into());
                 }
                 DiffResult::Removed => {
-                    let backend = self
-                        .backends
-                        .get(cluster_id)
-                        .and_then(|v| v.iter().find(|b| &b.backend_id == backend_id))
-                        .unwrap();
+                    let backend = &my_backends[key];
 
                     v.push(
                         RequestType::RemoveBackend(RemoveBackend {
@@ -2037,11 +2042,7 @@ impl ConfigState {
                     );
                 }
                 DiffResult::Changed => {
-                    let backend = self
-                        .backends
-                        .get(cluster_id)
-                        .and_then(|v| v.iter().find(|b| &b.backend_id == backend_id))
-                        .unwrap();
+                    let backend = &my_backends[key];
 
                     v.push(
                         RequestType::RemoveBackend(RemoveBackend {
@@ -2052,11 +2053,7 @@ impl ConfigState {
                         .into(),
                     );
 
-                    let backend = other
-                        .backends
-                        .get(cluster_id)
-                        .and_then(|v| v.iter().find(|b| &b.backend_id == backend_id))
-                        .unwrap();
+                    let backend = &their_backends[key];
                     v.push(RequestType::AddBackend(backend.clone().to_add_backend()).into());
                 }
             }
